@@ -23,6 +23,7 @@ import (
 	"encoding/json"
 	"fmt"
 	"math/big"
+	"sort"
 
 	"github.com/polynetwork/poly/common"
 	"github.com/polynetwork/poly/native"
@@ -206,7 +207,14 @@ func (this *RippleHandler) MultiSign(service *native.NativeService) error {
 		if err != nil {
 			return fmt.Errorf("MultiSign, types.DeserializeRawMultiSignTx error")
 		}
+		// iterate in sorted order: map iteration order would make the signer order of the emitted
+		// transaction json (an event of this transaction) differ between executions
+		sigList := make([]string, 0, len(multisignInfo.SigMap))
 		for s := range multisignInfo.SigMap {
+			sigList = append(sigList, s)
+		}
+		sort.Strings(sigList)
+		for _, s := range sigList {
 			signerBytes, err := hex.DecodeString(s)
 			if err != nil {
 				return fmt.Errorf("MultiSign, hex.DecodeString signer bytes error")
